@@ -254,7 +254,7 @@ func (a *nilAnalysis) structFromCell(fl *types.Var, cell nilCell) bool {
 
 func runC11(c *Ctx) {
 	// clause shared with C03: one response head: error body and Content-Length agree
-	defer c.ImportRules("C03", "C03.4")
+	defer c.ImportRules("C03", "C03.4", "C03.17")
 	// clause shared with C19: the stable marshaller is only used where the codec has one
 	defer c.ImportRules("C19", "C19.2")
 	// clause shared with C15: pooled (de)compressors: taken, reset and handed back exactly once
